@@ -247,6 +247,14 @@ func (d *c25Driver) Tick() bool {
 	}
 	if d.phase == 1 {
 		if d.waitingID == 0 {
+			if !rig.sampled && d.step == len(d.steps)/3 {
+				rig.sampled = true
+				for _, lv := range rig.levels {
+					for _, x := range lv.reqs {
+						rig.outstandingAtQuiesce = rig.outstandingAtQuiesce || x.rsps == 0
+					}
+				}
+			}
 			if cs.Upd.Late && !rig.updated && d.step == len(d.steps)/3 {
 				rig.applyUpdate() // every target has acknowledged the first command
 			}
@@ -397,6 +405,9 @@ type c25Rig struct {
 	oldFrame int       // frame of the updated page before the update (-1 = no update yet)
 	updated  bool
 	ackCycle int
+	// sampled when every target has acknowledged the first command: was a
+	// translation request still unanswered at some level below the AT?
+	sampled, outstandingAtQuiesce bool
 }
 
 func (r *c25Rig) isRemote(vp int) bool {
@@ -772,7 +783,13 @@ func c25RunOnce(cs c25Case, cut int, pr *probs) (endCycle int, outcome string) {
 		case onUpdated && m.addr == oldAddr && d.issuedAt[op] == 0:
 			// issued before the update: it races with it and may use either mapping
 		case onUpdated && m.addr == oldAddr:
-			pr.bad("address:stale-after-invalidate:"+cs.Upd.First, "%s: op %d %+v was issued after the %s/invalidate/enable sequence was acknowledged (cycle %d) but reached memory at %#x, the old frame; the page table says %#x",
+			variant := cs.Upd.First
+			if variant == "pause" && !r.outstandingAtQuiesce {
+				// the recorded finding is a fill that was outstanding when the
+				// stack was paused; with nothing outstanding this is another defect
+				variant = "pause:nothing-outstanding-when-paused"
+			}
+			pr.bad("address:stale-after-invalidate:"+variant, "%s: op %d %+v was issued after the %s/invalidate/enable sequence was acknowledged (cycle %d) but reached memory at %#x, the old frame; the page table says %#x",
 				where, op, o, cs.Upd.First, r.ackCycle, m.addr, want)
 		default:
 			pr.bad("address:wrong-physical-address", "%s: op %d %+v reached memory at %#x, the page table says %#x", where, op, o, m.addr, want)
